@@ -60,6 +60,29 @@ GENS["MapLit"] = {
            "for m := range inner() {", "\tm[1] += 5", "\tYIELD(m[1])", "}", "RETURN"],
     "ref": ["for tr.C(1) {", "\tm := map[int]int{1: 1}", "\tm[1] += 5", "\tYIELD(m[1])", "}", "RETURN"]}
 
+# forwarding closures whose arguments are a permutation / repetition of the parameters are not eta-redexes
+BYSTANDERS["BPermuted"] = ["flip := func(a, b int) int { return tr.Sub(b, a) }", "dup := func(a, b int) int { return tr.Sub(a, a) }",
+                           "fwd := func(a, b int) int { return tr.Sub(a, b) }", "return []int{flip(10, 3), dup(10, 3), fwd(10, 3)}"]
+# a consumer that pulls by hand and replaces its iterator on the way: the loop condition and closures over
+# it.MoveNext / it.Current must keep reading the variable, not the iterator it held when they were built
+GENS["PullReassign"] = {
+    "co": ["mk := func(base int) Iter[int] {", "\tfor i := 0; i < 3; i++ {", "\t\tYield(base + i)", "\t}", "\treturn nil", "}",
+           "it := mk(0)", "n := 0", "for it.MoveNext() {", "\tYIELD(it.Current())", "\tn++", "\tif n == 2 {", "\t\tit = mk(100)", "\t}", "}", "RETURN"],
+    "ref": ["mk := func(base int) refco.Iter {", "\treturn refco.New(func(y2 *refco.Y) {", "\t\tfor i := 0; i < 3; i++ {", "\t\t\ty2.Yield(base + i)", "\t\t}", "\t})", "}",
+            "it := mk(0)", "n := 0", "for it.MoveNext() {", "\tYIELD(it.Current())", "\tn++", "\tif n == 2 {", "\t\tit = mk(100)", "\t}", "}", "RETURN"]}
+GENS["PullClosure"] = {
+    "co": ["mk := func(base int) Iter[int] {", "\tfor i := 0; i < 2; i++ {", "\t\tYield(base + i)", "\t}", "\treturn nil", "}",
+           "it := mk(0)", "more := func() bool { return it.MoveNext() }", "cur := func() int { return it.Current() }",
+           "for more() {", "\tYIELD(cur())", "}", "it = mk(50)", "for more() {", "\tYIELD(cur())", "}", "RETURN"],
+    "ref": ["mk := func(base int) refco.Iter {", "\treturn refco.New(func(y2 *refco.Y) {", "\t\tfor i := 0; i < 2; i++ {", "\t\t\ty2.Yield(base + i)", "\t\t}", "\t})", "}",
+            "it := mk(0)", "more := func() bool { return it.MoveNext() }", "cur := func() int { return it.Current() }",
+            "for more() {", "\tYIELD(cur())", "}", "it = mk(50)", "for more() {", "\tYIELD(cur())", "}", "RETURN"]}
+# range with assignment to existing operands where the value operand depends on the key operand: Go assigns
+# both at once (a[i] is located with the old i)
+GENS["RangeAssignIndex"] = ["xs := []int{5, 6, 7}", "a := make([]int, 3)", "var i int", "for i, a[i] = range xs {", "\tYIELD(i)", "}",
+                            "YIELD(a[0]*100 + a[1]*10 + a[2])", "RETURN"]
+GENS["RangeAssignMap"] = ["src := map[int]int{1: 11}", "dst := map[int]int{}", "k := 7", "for k, dst[k] = range src {", "\tYIELD(k)", "}",
+                          "YIELD(dst[7]*1000 + dst[1])", "RETURN"]
 VAR_DECLS = ["var PkgCounter = tr.Add(40, 2)", "const PkgConst = 7", "type PkgT struct{ A int }", "func (p PkgT) M() int { return p.A + PkgConst }"]
 BYSTANDERS["BPkgLevel"] = ["return []int{PkgCounter, PkgConst, PkgT{1}.M()}"]
 
